@@ -673,6 +673,16 @@ func rC01ErrDiscipline(w *World, r *Report) {
 		good := true
 		why := ""
 		nret := 0
+		// the error block is entered only because the conversion failed: no further condition rejects text the
+		// converter accepted (a value is stored exactly when it converts)
+		if errK < len(errIf.Block().Succs) {
+			tgt := errIf.Block().Succs[errK]
+			for _, p := range tgt.Preds {
+				if p != errIf.Block() {
+					good, why = false, "the conversion-error return at "+w.IPos(tgt.Instrs[0])+" is also entered from "+w.IPos(p.Instrs[len(p.Instrs)-1])+": text the converter accepts is rejected by an extra condition"
+				}
+			}
+		}
 		for i, s := range seen {
 			if !s {
 				continue
@@ -691,7 +701,7 @@ func rC01ErrDiscipline(w *World, r *Report) {
 		if nret == 0 {
 			good, why = false, "the conversion-error edge does not return"
 		}
-		if good {
+		if good && why == "" {
 			ru.OK(key, w.IPos(call), "err != nil ⇒ non-nil error returned, nothing stored")
 		} else {
 			ru.Bad(key, w.IPos(call), why)
